@@ -132,6 +132,11 @@ enum Veh {
 enum Query {
     Missing,
     Null,
+    Bool(bool),
+    /// [50] : a number wrapped in an array
+    Arr,
+    /// {"value": 50}
+    Obj,
     Str(String),
     Int(i64),
     Float(#[serde(with = "bits")] f64),
@@ -205,6 +210,9 @@ fn query_json_for(q: &Query, model_name: &str) -> Value {
     match q {
         Query::Missing => {}
         Query::Null => m["starting_soc_percent"] = Value::Null,
+        Query::Bool(b) => m["starting_soc_percent"] = json!(b),
+        Query::Arr => m["starting_soc_percent"] = json!([50]),
+        Query::Obj => m["starting_soc_percent"] = json!({"value": 50}),
         Query::Str(s) => m["starting_soc_percent"] = json!(s),
         Query::Int(i) => m["starting_soc_percent"] = json!(i),
         Query::Float(x) => m["starting_soc_percent"] = json!(x),
@@ -529,7 +537,7 @@ fn add_case(st: &mut Stream, c: Case, family: &str, judge_collisions: bool) {
         "query:{}",
         match &c.query {
             Query::Missing => "missing",
-            Query::Null | Query::Str(_) => "non-numeric",
+            Query::Null | Query::Str(_) | Query::Bool(_) | Query::Arr | Query::Obj => "non-numeric",
             Query::Int(i) if *i < 0 || *i > 100 => "out-of-range",
             Query::Float(x) if !(0.0..=100.0).contains(x) => "out-of-range",
             Query::Int(0) => "0",
@@ -766,6 +774,8 @@ fn boundary(st: &mut Stream, seed: u64, cache_on: bool, judge: bool) {
         Query::Missing, Query::Int(0), Query::Int(100), Query::Float(0.0), Query::Float(100.0), Query::Int(50),
         Query::Float(-1.0), Query::Float(100.5), Query::Int(150), Query::Int(-1), Query::Str("abc".into()),
         Query::Str("50".into()), Query::Null, Query::Float(1e-3),
+        Query::Float(-0.0), Query::Float(100.0000001), Query::Float(-1e-9), Query::Float(99.999), Query::Float(50.0),
+        Query::Bool(true), Query::Arr, Query::Obj, Query::Str("".into()),
     ];
     for kind in 0..3u64 {
         for q in &queries {
@@ -901,7 +911,7 @@ fn coq_bc(o: &Outcome) -> String {
 fn query_class(q: &Query) -> &'static str {
     match q {
         Query::Missing => "missing",
-        Query::Null | Query::Str(_) => "non-numeric",
+        Query::Null | Query::Str(_) | Query::Bool(_) | Query::Arr | Query::Obj => "non-numeric",
         Query::Int(i) if *i < 0 || *i > 100 => "out-of-range",
         Query::Float(x) if !(0.0..=100.0).contains(x) => "out-of-range",
         _ => "in-range",
@@ -1302,6 +1312,23 @@ fn main() {
     }
     let mut rng = Rng::new(a.seed);
     if name == "queries" {
+        // boundary charges for BOTH battery vehicle kinds on one service instance, every value once per kind
+        let bounds: Vec<Vec<Query>> = vec![
+            vec![Query::Int(0), Query::Int(100), Query::Float(-0.0), Query::Float(100.0000001), Query::Float(-1e-9), Query::Int(50)],
+            vec![Query::Float(99.999), Query::Float(100.0), Query::Float(0.0), Query::Str("abc".into()), Query::Bool(true), Query::Null],
+            vec![Query::Arr, Query::Obj, Query::Missing, Query::Float(100.0), Query::Int(-1), Query::Int(101)],
+        ];
+        let mut brng = Rng::new(a.seed ^ 0x0C08);
+        for target in [1u64, 2] {
+            for qs in &bounds {
+                let mut r = brng.fork();
+                let mut qc = gen_qcase(&mut r);
+                let c = gen_case(&mut r, target, false, Shape { n_edges: 1, downhill: 0.0, cap_scale: 1.0 }, Query::Missing);
+                qc.vehicles[0] = c.veh;
+                qc.queries = qs.iter().map(|q| (0usize, q.clone())).collect();
+                add_qcase(&mut st, qc, "boundary-charges");
+            }
+        }
         while st.next_id() < a.n {
             let mut r = rng.fork();
             let qc = gen_qcase(&mut r);
